@@ -72,6 +72,7 @@ class Scenario:
         self.next_pid = 1000
         self.symvars = {}
         self.dtor_stack = []
+        self.sink = []
         self.in_op = None
         self.op_index = -1
         self.status = 'ok'
@@ -364,7 +365,37 @@ class Scenario:
                 o = Agg('Ordering', 'Less' if x < y else ('Equal' if x == y else 'Greater'))
                 return o if m == 'cmp' else some(o)
             return {'eq': x == y, 'ne': x != y, 'lt': x < y, 'le': x <= y, 'gt': x > y, 'ge': x >= y}[m]
+        if m == 'hash' and vals and isinstance(vals[0], TVal):
+            self.sink.append(('T::hash', vals[0].id))
+            return UNIT
+        if m == 'fmt' and vals and isinstance(vals[0], TVal) and ('Display' in key or 'Debug' in key):
+            self.sink.append(('T::Display' if 'Display' in key else 'T::Debug', vals[0].id))
+            return Agg('Result', 'Ok', (UNIT,))
+        if key == 'Pointer::fmt':
+            self.sink.append(('ptr', vals[0]))
+            return Agg('Result', 'Ok', (UNIT,))
         raise Unsupported('T method %s' % key)
+
+    def sink_event(self, E, kind, detail):
+        self.sink.append((kind, detail))
+
+    def sink_text(self, x):
+        """what the writes of one formatting call amount to (T's own impls print node<id> / Node(<id>))"""
+        out = []
+        for (kind, d) in self.sink:
+            if kind == 'T::Display':
+                out.append('node%d' % d)
+            elif kind == 'T::Debug':
+                out.append('Node(%d)' % d)
+            elif kind == 'str':
+                out.append(str(d))
+            elif kind == 'ptr':
+                oi = self.objs.get(x['obj']) if x.get('obj') is not None else None
+                ok = isinstance(d, Ptr) and oi is not None and d.obj == oi.box and len(d.path) >= 1 and d.path[0] == 3 and all(q == 0 for q in d.path[1:])
+                out.append('<ptr:value-of-self>' if ok else '<ptr:other>')
+            else:
+                out.append('<%s>' % kind)
+        return ''.join(out)
 
     # ------------------------------------------------------------ ledger queries
     def live_payloads_of(self, idx):
@@ -608,6 +639,17 @@ class Scenario:
             self.box2obj[p.obj] = idx
             E.heap[p.obj].meta['label'] = ' (RcBox of object %d)' % idx
             self.set_handle(op['as'], 'rc', v, idx)
+        elif k in ('hash', 'fmt_display', 'fmt_debug', 'fmt_pointer', 'wfmt_debug'):
+            x = self.h(op['w'], 'weak') if k == 'wfmt_debug' else self.h(op['h'], 'rc')
+            self.sink = []
+            sinkp = Ptr(E.new_obj('sink', Opaque('sink')))
+            if k == 'hash':
+                self.call('Rc', 'Hash', 'hash', x['ptr'], sinkp)
+                ids = [d for (kk, d) in self.sink if kk == 'T::hash']
+                self.obs(op, 'thash=%d,extra=%d,ids=%s' % (len(ids), len(self.sink) - len(ids), '+'.join(str(i) for i in ids) or '-'))
+            else:
+                r = self.call('Weak' if k == 'wfmt_debug' else 'Rc', {'fmt_display': 'Display', 'fmt_debug': 'Debug', 'fmt_pointer': 'Pointer', 'wfmt_debug': 'Debug'}[k], 'fmt', x['ptr'], sinkp)
+                self.obs(op, '%s:%s' % (self.sink_text(x), 'ok' if isinstance(r, Agg) and r.variant == 'Ok' else 'err'))
         elif k in ('eq', 'ne', 'lt', 'le', 'gt', 'ge', 'cmp', 'partial_cmp'):
             a = self.h(op['a'], 'rc')
             b = self.h(op['b'], 'rc')
@@ -718,6 +760,17 @@ class Scenario:
             pl = self.payload_in(own['obj'])
             wv, tgt = pl.weak.pop(op['slot'])
             self.set_handle(op['as'], 'weak', wv, tgt)
+        elif k in ('self_take', 'self_take_weak'):
+            # inside a destructor: move slot k of the value that is being destroyed into a named handle
+            if not self.dtor_stack:
+                raise ScriptError('self_take outside a destructor')
+            pl = self.payloads[self.dtor_stack[-1]]
+            if k == 'self_take':
+                hv, tgt = pl.strong.pop(op['slot'])
+                self.set_handle(op['as'], 'rc', hv, tgt)
+            else:
+                wv, tgt = pl.weak.pop(op['slot'])
+                self.set_handle(op['as'], 'weak', wv, tgt)
         elif k == 'adopt':
             a = self.h(op['a'], 'rc')
             b = self.h(op['b'], 'rc')
